@@ -147,11 +147,26 @@ def run(chk):
     curves.append(("monotone", [Fraction(0), Fraction(1)], [Fraction(0), Fraction(1)]))
     curves.append(("monotone_steps", [Fraction(0), Fraction(0), Fraction(1)], [Fraction(0), Fraction(1), Fraction(1)]))
     curves.append(("monotone_steps", [Fraction(0), Fraction(1), Fraction(1)], [Fraction(0), Fraction(0), Fraction(1)]))
-    acases, apf = [], []
+    # near-perfect classifiers: the false-positive rate only takes the values 0 and 1 (integers), the TPRs are fractional
+    for t in range(40 if chk.tier == "quick" else 1500):
+        m = int(rng.integers(3, 12))
+        den = int(rng.choice([8, 64, 1024]))
+        j = int(rng.integers(1, m))
+        xs = [Fraction(0)] * j + [Fraction(1)] * (m - j)
+        ys = sorted(int(v) for v in rng.integers(0, den + 1, m))
+        ys[0], ys[-1] = 0, den
+        curves.append(("binary_fpr", [Fraction(v, den) for v in ys], xs))
+    acases, apf, adesc = [], [], []
     for kind, ys, xs in curves:
-        for container in ("list", "array"):
+        integral_x = all(v.denominator == 1 for v in xs)
+        for container in ("list", "array") + (("int_literals", "int_fpr_array") if integral_x else ()):
             yf, xf = [float(v) for v in ys], [float(v) for v in xs]
-            got = float(auc(yf, xf) if container == "list" else auc(np.array(yf), np.array(xf)))
+            lit = lambda v: int(v) if v.denominator == 1 else float(v)
+            adesc.append({"function": "auc", "TPRs": [str(v) for v in ys], "FPRs": [str(v) for v in xs], "container": container})
+            got = float(auc(yf, xf) if container == "list" else auc(np.array(yf), np.array(xf)) if container == "array" else
+                        auc([lit(v) for v in ys], [lit(v) for v in xs]) if container == "int_literals" else
+                        auc(np.array(yf), np.array([int(v) for v in xs], dtype=np.int64)))
+            chk.count("auc.container." + container)
             ref = sum((xs[k + 1] - xs[k]) * (ys[k] + ys[k + 1]) / 2 for k in range(len(xs) - 1))
             pf = None
             if abs(Fraction(got) - ref) > TOL:
@@ -165,13 +180,12 @@ def run(chk):
             chk.count("auc." + kind)
     lib.correspond(chk, "auc_model_vs_impl", IMPORTS + "Open Scope Q_scope.\n", "list Q * list Q * Q",
                    f"check_auc_tol {qlit(TOL)}", acases, apf,
-                   lambda i: {"function": "auc", "TPRs": [str(v) for v in curves[i // 2][1]],
-                              "FPRs": [str(v) for v in curves[i // 2][2]], "container": ("list", "array")[i % 2]},
+                   lambda i: adesc[i],
                    shard=500, jobs=12)
     chk.rule = ("Compute_TPR_FPR: every pair of binary zero-diagonal matrices with n<=3 (exhaustive, 4113 pairs) + seeded samples "
                 "n=4..12 (independent / identical / complement / few flips; int64 and float64) + a malformed stream (non-binary, "
                 "non-zero diagonal: code route only). auc: monotone polylines (with vertical steps) and non-monotone ones on dyadic "
-                "grids, list and ndarray containers. Distinct = distinct (n,A,B) or (ys,xs,container); non-trivial = at least one "
+                "grids, list and ndarray containers; curves whose FPR is 0/1 only with fractional TPRs, also written with integer literals and with an int64 FPR array. Distinct = distinct (n,A,B) or (ys,xs,container); non-trivial = at least one "
                 "positive or negative off-diagonal pair / at least two distinct abscissae.")
     chk.exhaustive = False
     chk.extra["exhaustive_part"] = "all pairs of binary zero-diagonal matrices for n <= 3"
@@ -191,7 +205,12 @@ def replay(chk, rep):
     elif r.get("function") == "auc":
         ys = [Fraction(v) for v in r["TPRs"]]
         xs = [Fraction(v) for v in r["FPRs"]]
-        got = float(auc([float(v) for v in ys], [float(v) for v in xs]))
+        lit = lambda v: int(v) if v.denominator == 1 else float(v)
+        cont = r.get("container", "list")
+        yf, xf = [float(v) for v in ys], [float(v) for v in xs]
+        got = float(auc(yf, xf) if cont == "list" else auc(np.array(yf), np.array(xf)) if cont == "array" else
+                    auc([lit(v) for v in ys], [lit(v) for v in xs]) if cont == "int_literals" else
+                    auc(np.array(yf), np.array([int(v) for v in xs], dtype=np.int64)))
         ref = sum((xs[k + 1] - xs[k]) * (ys[k] + ys[k + 1]) / 2 for k in range(len(xs) - 1))
         print(f"replay: impl={got} trapezoid={float(ref)}")
         if abs(Fraction(got) - ref) > TOL:
